@@ -66,7 +66,7 @@ PROPS["C16"] = dict(
     units=[
         dict(harness="log_format", mode="render", kind="enum", quick=dict(), thorough=dict()),
         dict(harness="log_format", mode="render", quick=dict(cases=20000, size=100),
-             thorough=dict(cases=150000, size=100, shards=16)),
+             thorough=dict(cases=100000, size=100, shards=16)),
     ],
     rule="definition = optional constructor separator + 1..10 items from {constant text, date, time, date_time (40% with a "
          "custom format of 1..6 tokens from %Y %m %d %H %M %S %y %j %e %F %T %R %D %a %b %% and literals), time_ms, time_us, "
